@@ -356,6 +356,11 @@ func (np *Pool) UnmarshalMsg(b []byte) ([]byte, error) {
 		return nil, err
 	}
 
+	np.Type = d.Type
+	np.NodesMap = d.NodesMap
+	if np.NodesMap == nil {
+		np.NodesMap = make(map[string]*Node)
+	}
 	np.Nodes = make([]*Node, 0, len(d.NodesMap))
 	for k := range d.NodesMap {
 		n := d.NodesMap[k]
